@@ -8,6 +8,7 @@ Provides a protocol for cache backends and two implementations:
 from __future__ import annotations
 
 import hashlib
+import io
 import hmac
 import logging
 import os
@@ -251,10 +252,28 @@ def compute_cache_key(definition_hash: str, inputs: dict[str, Any]) -> str:
         SHA256 hex digest string, or empty string if inputs are not picklable.
     """
     try:
-        sorted_items = sorted(inputs.items())
-        inputs_bytes = pickle.dumps(sorted_items)
+        inputs_bytes = b"".join(_pickle_by_value(item) for item in sorted(inputs.items()))
     except (pickle.PicklingError, TypeError, AttributeError) as exc:
         logger.warning("Cache miss: inputs not picklable (%s)", exc)
         return ""
     content = definition_hash.encode() + inputs_bytes
     return hashlib.sha256(content).hexdigest()
+
+
+def _pickle_by_value(obj: Any) -> bytes:
+    """Pickle ``obj`` so that equal values give equal bytes.
+
+    The pickle memo encodes which sub-objects are the *same object*: two
+    arguments that alias one object (``f(a=x, b=x)``, e.g. because an upstream
+    node returned its input) pickle differently from two equal but distinct
+    objects. The key must depend on the values only, so the memo is switched
+    off; self-referential structures, which need it, fall back to the default.
+    """
+    buffer = io.BytesIO()
+    pickler = pickle.Pickler(buffer)
+    pickler.fast = True
+    try:
+        pickler.dump(obj)
+    except (RecursionError, ValueError):
+        return pickle.dumps(obj)
+    return buffer.getvalue()
